@@ -117,6 +117,14 @@ CHECKS = {
              "compute exactly the tensors of the plain-mode program and of dense evaluation. Found and fixed the payload-order defect of "
              "leader-follower intersection (8641d3c).",
         design="4/C11"),
+    "C12": dict(
+        technique="property-based testing (Hypothesis): generated Einsums/mappings with constructed architectures/bindings/formats; oracle = static cross-reference of the emitted metrics text (registrations, fiber traces, filter steps, consumed files, intersector objects) in program order per Einsum section",
+        text="Generated-input search over the constructed metrics family (lazy/eager buffets, caches, every intersector type, sequencers, "
+             "partitioned mappings) and the shipped specifications: the emitted text is walked in program order and everything the dump "
+             "consumes (trace files, consumable traces, intersector models) must have been registered / produced / created and fed "
+             "earlier in the same Einsum's section, with collection opened and closed exactly once around the loop nest.",
+        design="4/C12",
+        note="Trusted base: vf/metrics_xref.py over Python's ast; the file-name rule <prefix>-<rank>-<type>.csv stated in the property."),
 }
 
 NOT_APPLICABLE = {}
